@@ -14,6 +14,10 @@ CFG = {
                   "Go's map order is not observable, so exact trace equality is not available without a hook). Acyclicity is a "
                   "hypothesis (a transaction hash commits to its inputs, so real transactions cannot form a cycle); on cyclic "
                   "input the model (and the code) silently drops every transaction on or below a cycle.",
+    "rule": "one evaluation = one order actually returned by the real wtxmgr.DependencySort / Store.UnminedTxs, judged by "
+            "the Go oracles (permutation, parents-first), by the Lean specification functions and, for <= 5 transactions, by "
+            "membership in the model's output set over all iteration orders; each evaluation additionally re-runs the real "
+            "code 20-40 times with fresh maps under the Go oracles; distinct_nontrivial = distinct (op line, reply) pairs",
     "lean_props": ["BtcwVerif.Props.C14"],
     "engines": ["kahn"],
     "trusted_base": COMMON_TB + [
